@@ -35,12 +35,23 @@ GLOBAL_ASSUMPTIONS = [
  "D5: LLVM undef/poison = nondeterministic value; nsw arithmetic, shifts, division and memory accesses carry CBMC's generated UB obligations; nuw is not checked",
 ]
 
-import threading
-CBMC_SLOTS = threading.BoundedSemaphore(int(os.environ.get("VERIF_CBMC_SLOTS", NCPU)))
+import threading, contextlib
+class _WeightedSlots:
+    """at most `cap` units of solver processes at a time; a memory-heavy process takes several units"""
+    def __init__(s, cap): s.cap = cap; s.used = 0; s.cv = threading.Condition(); s.heavy = 1
+    @contextlib.contextmanager
+    def take(s, mem_gb):
+        w = min(s.cap, s.heavy if mem_gb >= 30 else 1)
+        with s.cv:
+            while s.used + w > s.cap: s.cv.wait()
+            s.used += w
+        try: yield
+        finally:
+            with s.cv: s.used -= w; s.cv.notify_all()
+CBMC_SLOTS = _WeightedSlots(int(os.environ.get("VERIF_CBMC_SLOTS", NCPU)))
 def set_cbmc_slots(n):
-    """at most n solver processes at a time (memory-heavy checks)"""
-    global CBMC_SLOTS
-    CBMC_SLOTS = threading.BoundedSemaphore(n)
+    """at most n memory-heavy solver processes (mem_gb >= 30) at a time; light ones keep one unit each"""
+    CBMC_SLOTS.heavy = max(1, -(-CBMC_SLOTS.cap // n))
 
 class ToolError(Exception):
     """undecided: extraction / tool problem (exit 2)"""
@@ -69,9 +80,9 @@ def short_dem(d):
 # ---------------------------------------------------------------- units
 class Unit:
     """A translation unit compiled from the CURRENT working tree of /repo on every run."""
-    def __init__(s, prop, name, src, defs=None, roots="re:^w_", cut=(), aliases=None, extra_flags=(), stubs=(), type_aliases=None):
+    def __init__(s, prop, name, src, defs=None, roots="re:^w_", cut=(), aliases=None, extra_flags=(), stubs=(), type_aliases=None, global_aliases=None):
         s.prop, s.name, s.src = prop, name, src
-        s.type_aliases = dict(type_aliases or {})
+        s.type_aliases = dict(type_aliases or {}); s.global_aliases = dict(global_aliases or {})
         s.defs = dict(defs or {}); s.roots = roots; s.cut = list(cut); s.aliases = dict(aliases or {})
         s.extra_flags = list(extra_flags); s.stubs = list(stubs)
         s.dir = os.path.join(BUILD, prop, "units", name)
@@ -115,6 +126,16 @@ class Unit:
             if len(hit) != 1:
                 raise ToolError("alias %s: pattern %r matches %d functions in unit %s (%s)" % (al, pat, len(hit), s.name, ", ".join(short_dem(d2[h])[:80] for h in hit[:5])))
             names[al] = hit[0]
+        # aliases of global variables: NAME -> the one global of the unit whose demangled name matches the regex
+        if s.global_aliases:
+            gl = [g.strip('"') for g in re.findall(r'^@("[^"]*"|[-\w$.]+) = ', open(mll).read(), re.M)]
+            utext = open(os.path.join(s.dir, "unit.c")).read()
+            gl = [g for g in gl if re.search(r'\b' + re.escape(g) + r'\b', utext)]
+            dg = demangle(gl)
+            for al, pat in s.global_aliases.items():
+                hit = [g for g in gl if re.search(pat, dg[g])]
+                if len(hit) != 1: raise ToolError("global alias %s: pattern %r matches %d globals in unit %s" % (al, pat, len(hit), s.name))
+                names[al] = hit[0]
         s.names = names
         with open(os.path.join(s.dir, "names.h"), "w") as f:
             for k, v in sorted(names.items()): f.write("#define %s %s\n" % (k, v))
@@ -256,7 +277,7 @@ class Task:
                 def run_group(g):
                     c2 = list(cb)
                     for p in g: c2 += ["--property", p]
-                    with CBMC_SLOTS: return sh(c2, cwd=d, timeout=s.timeout, mem_gb=s.mem_gb)
+                    with CBMC_SLOTS.take(s.mem_gb): return sh(c2, cwd=d, timeout=s.timeout, mem_gb=s.mem_gb)
                 with cf.ThreadPoolExecutor(max_workers=min(len(groups), 8)) as ex2: outs = list(ex2.map(run_group, groups))
                 res["time"]["cbmc"] = round(time.time() - t0, 2); res["time"]["cbmc_cpu_sum"] = round(sum(x[3] for x in outs), 2)
                 props = []; msgs = []; js = None
@@ -273,7 +294,7 @@ class Task:
                     want = set(groups[gi]); props += [p for p in pp if p["property"] in want]
                 rc = 0; o = ""; e = ""
             else:
-                with CBMC_SLOTS: rc, o, e, t = sh(cb, cwd=d, timeout=s.timeout, mem_gb=s.mem_gb)
+                with CBMC_SLOTS.take(s.mem_gb): rc, o, e, t = sh(cb, cwd=d, timeout=s.timeout, mem_gb=s.mem_gb)
                 res["time"]["cbmc"] = round(t, 2)
                 open(os.path.join(d, "cbmc.json"), "w").write(o); open(os.path.join(d, "cbmc.err"), "w").write(e)
                 if e == "TIMEOUT": res["why"] = "cbmc timeout after %ds" % s.timeout; return res
@@ -299,6 +320,9 @@ class Task:
                     # a call to a body-less function: extraction hole, never a verdict
                     if st != "SUCCESS": res["why"] = "call to a function without body (%s): extraction/stub hole" % nm; res["status"] = "undecided"; return res
                     continue
+                if re.search(r'\.(single_top_level_call|no_recursive_call)\.\d+$', nm) and st != "SUCCESS":
+                    # restrictions of goto-instrument --dfcc on the shape of the harness / the enforced function, not obligations of the code
+                    res["why"] = "DFCC restriction violated by the task set-up (%s): tool limit, never a verdict" % nm.rsplit(".", 2)[-2]; res["status"] = "undecided"; return res
                 nobl += 1; names.append(nm)
                 if st == "SUCCESS": ndis += 1
                 elif st == "FAILURE": failed.append({"property": nm, "description": desc, "location": p.get("sourceLocation", {})})
@@ -485,7 +509,7 @@ def run_check(prop, tier, tasks, units, level, extra_assumptions=(), trusted_bas
     for t in tasks:
         if t.unit.name not in okunits:
             results.append({"id": t.id, "group": t.group, "unit": t.unit.name, "status": "undecided", "why": "unit did not build", "obligations": 0, "discharged": 0, "failed": [], "bounded": t.bounded, "time": {}})
-    with cf.ThreadPoolExecutor(max_workers=min(NCPU, max_workers or NCPU)) as ex:
+    with cf.ThreadPoolExecutor(max_workers=NCPU) as ex:
         futs = {ex.submit(t.run, prop): t for t in run_tasks}
         for f in cf.as_completed(futs):
             r = f.result(); results.append(r)
